@@ -1580,7 +1580,29 @@ func canBreakInside(ctx *layoutContext, box Box) pr.MaybeBool {
 				return pr.True
 			}
 		}
+		// ... and a break may be allowed between two of its children: after the
+		// space that ends a text, around an atomic inline
+		if textWrap && len(box.Box().Children) > 1 {
+			return ctx.Fonts().CanBreakText(inlineText(box))
+		}
 		return pr.False
 	}
 	return pr.False
+}
+
+// inlineText returns the text of an inline-level box, atomic inlines standing
+// for an ideographic character (as in splitInlineLevel).
+func inlineText(box Box) []rune {
+	if textBox, isTextBox := box.(*bo.TextBox); isTextBox {
+		return textBox.Text
+	} else if IsLine(box) {
+		var out []rune
+		for _, child := range box.Box().Children {
+			if child.Box().IsInNormalFlow() {
+				out = append(out, inlineText(child)...)
+			}
+		}
+		return out
+	}
+	return []rune{'\u2e80'}
 }
